@@ -438,6 +438,67 @@ def _run_circular(cb, cap, ops):
     return None
 
 
+def run_circular_big(cap, nputs):
+    """Capacities of thousands: content checked every 97 puts and at the end (a per-step check would be quadratic)."""
+    from windpyutils.structures.circular_buffer import CircularBuffer
+    cb = CircularBuffer(cap)
+    if cb.max_size != cap:
+        return "circular", f"max_size={cb.max_size}, constructed with {cap}"
+    for k in range(nputs):
+        r = outcome(lambda: cb.put(k))
+        if r != ("ok", None):
+            return "circular-operation-raised", f"capacity {cap}, put #{k + 1} -> {r}"
+        if k % 97 == 0 or k == nputs - 1 or k in (cap - 1, cap, cap + 1, 1023, 1024, 1025):
+            want = list(range(max(0, k + 1 - cap), k + 1))
+            got = outcome(lambda: list(cb))
+            if got != ("ok", want) or len(cb) != len(want) or cb.max_size != cap:
+                g = got[1] if got[0] == "ok" else got
+                return "circular-content", (f"capacity {cap}, after {k + 1} puts: len={len(cb)}, max_size={cb.max_size}, list(buffer) "
+                                            f"starts {str(g[:3])}, ends {str(g[-3:])}; the last {len(want)} puts are {want[0]}..{want[-1]}")
+            for i in (0, len(want) - 1, len(want) // 2):
+                if outcome(lambda: cb[i]) != ("ok", want[i]):
+                    return "circular-index", f"capacity {cap}, after {k + 1} puts: buffer[{i}] -> {outcome(lambda: cb[i])}, expected {want[i]}"
+    return None
+
+
+def run_print_backlog(n):
+    """More than a million values held back while serial 0 is still missing: nothing is printed before serial 0 arrives, then
+    everything in order."""
+    from windpyutils.buffers import PrintBuffer
+
+    class _Count:
+        def __init__(self):
+            self.n, self.first, self.last, self.ordered = 0, None, None, True
+
+        def write(self, s):
+            for part in s.split("\n"):
+                if part:
+                    v = int(part)
+                    if self.first is None:
+                        self.first = v
+                    if self.last is not None and v != self.last + 1:
+                        self.ordered = False
+                    self.last = v
+                    self.n += 1
+            return len(s)
+
+        def flush(self):
+            pass
+    out = _Count()
+    pb = PrintBuffer(out)
+    for k in range(n, 0, -1):
+        r = pb.print(k, str(k))
+        if r is not False or out.n:
+            return "print-order", f"{n - k + 1} values held back while serial 0 is missing: print({k}) -> {r}, {out.n} items were written (first {out.first})"
+    if len(pb) != n or pb.waiting_for != 0:
+        return "print-counters", f"{n} values held back: len={len(pb)}, waiting_for={pb.waiting_for}"
+    pb.print(0, "0")
+    if out.n != n + 1 or not out.ordered or out.first != 0 or pb.waiting_for != n + 1 or len(pb) != 0:
+        return "print-order", (f"serial 0 arrived after {n} later ones: {out.n} items written (first {out.first}, last {out.last}, ascending: "
+                               f"{out.ordered}), waiting_for={pb.waiting_for}, len={len(pb)}")
+    return None
+
+
 def run_shard(spec):
     instr.install(["windpyutils.buffers", "windpyutils.structures.circular_buffer"])
     res = ShardResult()
@@ -562,6 +623,28 @@ def run_shard(spec):
             report(bad, {"what": "circular", "cap": cap, "ops": [[o, list(v) if v else None] for o, v in ops]})
         if len(ops) >= 2:
             res.seen(("c", cap, tuple(o for o, _ in ops)))
+    # ring buffers with capacities of thousands, and (one shard) a PrintBuffer holding more than a million values
+    for cap in ([1025, 2049][shard % 2::2] if tier == "quick" else [1025, 1500, 2049, 4097, 10001][shard % 5::5]):
+        res.evaluations += 1
+        res.count("circular_histories_with_capacity_above_1024")
+        with instr.budget(80_000_000):
+            try:
+                bad = run_circular_big(cap, cap + 700)
+            except instr.StepBudgetExceeded:
+                bad = ("operation-does-not-end", "circular buffer: statement budget exceeded")
+        if bad:
+            report(bad, {"what": "circular-big", "cap": cap, "nputs": cap + 700})
+    if shard == 5:
+        nheld = (1 << 20) + 5
+        res.evaluations += 1
+        res.count("print_buffers_holding_more_than_a_million_values")
+        with instr.budget(400_000_000):
+            try:
+                bad = run_print_backlog(nheld)
+            except instr.StepBudgetExceeded:
+                bad = ("operation-does-not-end", "print buffer with a long backlog: statement budget exceeded")
+        if bad:
+            report(bad, {"what": "print-backlog", "n": nheld})
     res.count("repo_line_events", instr.S.total)
     return res.as_dict()
 
@@ -584,6 +667,10 @@ def replay(doc):
         bad = run_print_retarget(c["order"], c["switch_at"])
     elif c["what"] == "buffer-falsy":
         bad = run_buffer(c["order"], set(c["drains"]), False, falsy=True)
+    elif c["what"] == "circular-big":
+        bad = run_circular_big(c["cap"], c["nputs"])
+    elif c["what"] == "print-backlog":
+        bad = run_print_backlog(c["n"])
     elif c["what"] in ("print", "print-blank"):
         bad = run_print_buffer(c["order"], set(c["drains"]), c["end"], blank=c["what"] == "print-blank")
     else:
